@@ -519,6 +519,10 @@ func c20ReplayIfAsked(env *mc.Env) bool {
 	if !ok {
 		return false
 	}
+	res := mc.NewResult("C20", "replay", "enumeration")
+	res.Rule = "re-execution of one recorded case"
+	res.Exhaustive = true
+	defer env.Emit(res)
 	if rp.Ops != nil {
 		mk := c20HistParts(env)[part]
 		if mk == nil {
@@ -530,7 +534,10 @@ func c20ReplayIfAsked(env *mc.Env) bool {
 		fmt.Printf("REPLAY part=%s ops=%v\n final state key: %s\n", part, rp.Ops, key)
 		for _, v := range viol {
 			fmt.Printf(" VIOLATION %s: %s\n", v.Key, v.What)
+			v.Replay = map[string]any{"ops": rp.Ops, "idx": rp.Idx}
+			res.Violate(v)
 		}
+		res.Evaluations = 1
 		return true
 	}
 	secs := c20Schema()
@@ -580,8 +587,10 @@ func c20ReplayIfAsked(env *mc.Env) bool {
 	for n := 0; n < 3; n++ {
 		fmt.Printf(" node %s delivered: %v\n", c20NodeNames[n], flats[n])
 	}
+	res.Evaluations = 1
 	for _, f := range found {
 		fmt.Printf(" MISMATCH %s|%s.%s: %s\n", f.MM.Clause, f.Sec.Name, f.MM.Class, c20What(f.Sec, f.Node, f.MM, ""))
+		res.Violate(mc.Violation{Key: "C20|" + f.MM.Clause + "|" + f.Sec.Name + "." + f.MM.Class, What: c20What(f.Sec, f.Node, f.MM, ""), Replay: rp.c20Replay})
 	}
 	if len(found) == 0 {
 		fmt.Println(" no mismatch")
